@@ -34,6 +34,7 @@ let dispatch kind fields =
   | "NOMODEL" -> "NOMODEL"
   | "LISTEN" -> K_listen.run_listen fields
   | "TIMED" -> K_timed.run_timed fields
+  | "DETECT" -> K_detect.run_detect fields
   | _ -> failwith ("unknown kind " ^ kind)
 
 let () =
